@@ -19,6 +19,9 @@ def main() -> int:
     a = ap.parse_args()
     from sim import runner, seams
 
+    import logging
+
+    logging.disable(logging.CRITICAL)
     seams.install()
     name = a.prop.upper()
     mod_name = "props." + name.lower()
